@@ -58,13 +58,36 @@ def wfType (model impl : Sx) : String :=
     s!"wf={if f.wf then "ok" else "bad"} type={ty} mdiag={mdiag}"
   | none => s!"wf=na type=na mdiag={mdiag}"
 
+/-- are the diagram-shaped arguments of a case (deeply) well-formed? Used by the minimiser so that
+    it never drifts from a well-formed failing input to an ill-formed one. -/
+def inputsWf (op : String) (args : List Sx) : Bool :=
+  let bare := if op.startsWith "adv1:" || op.startsWith "adv2:" then (op.drop 5).toString else op
+  let strictish := bare.startsWith "oh." || bare.startsWith "law." || bare.startsWith "eval." ||
+    bare.startsWith "graph." || bare.startsWith "functor." || bare.startsWith "hg."
+  let laxish := bare.startsWith "lax." || bare.startsWith "var."
+  args.all fun a =>
+    if strictish then
+      match (dec a : Option F), (dec a : Option H), (dec a : Option (IC FinFun)), (dec a : Option FinFun) with
+      | some f, _, _, _ => f.wf
+      | _, some h, _, _ => h.wf
+      | _, _, some c, _ => c.wf
+      | _, _, _, some f => f.wf
+      | _, _, _, _ => true
+    else if laxish then
+      match (dec a : Option LF), (dec a : Option LH), (dec a : Option FinFun) with
+      | some f, _, _ => f.wf
+      | _, some h, _ => h.wf
+      | _, _, some f => f.wf
+      | _, _, _ => true
+    else true
+
 def verdictLine (line : String) : String :=
   match Sx.parseLine line with
   | some [.n id, .s op, .l args, impl] =>
     match dispatch op args impl with
     | some o =>
       if o.agree then s!"{id} ok {op} {o.rel}"
-      else s!"{id} DIFF {op} rel={o.rel} decisive={o.decisive} class={o.klass} {wfType o.model impl} model={o.model} impl={impl} note={o.note}"
+      else s!"{id} DIFF {op} rel={o.rel} decisive={o.decisive} class={o.klass} inwf={if inputsWf op args then "yes" else "no"} {wfType o.model impl} model={o.model} impl={impl} note={o.note}"
     | none => s!"{id} BAD {op} unknown-op-or-malformed-args"
   | _ => "0 BAD ? unparsable-line"
 
